@@ -88,6 +88,7 @@ type Fake struct {
 	ResizeFail bool
 	Jitter     int // max per-call delay in 100us units (0 = none)
 
+	Rejected     []uint32 // ids of writes this replica received but did not apply
 	ReadsServed  int
 	IOAfterClose []string
 	SetCalls     []string // order of SetReplicaMode/SetRevisionCounter calls (promotion)
@@ -185,6 +186,18 @@ func (c *Conn) io(kind string, apply func()) error {
 
 func (c *Conn) WriteAt(buf []byte, off int64) (int, error) {
 	f := c.F
+	var wid uint32
+	if len(buf) >= 8 {
+		wid = uint32(binary.LittleEndian.Uint64(buf) >> 32)
+	}
+	defer func() {
+		// remember which write a failing replica rejected (for ordering oracles)
+		f.mu.Lock()
+		if n := len(f.Log); n == 0 || !(f.Log[n-1].Kind == "w" && f.Log[n-1].ID == wid) {
+			f.Rejected = append(f.Rejected, wid)
+		}
+		f.mu.Unlock()
+	}()
 	err := c.io("write", func() {
 		copy(f.Data[off:], buf)
 		for s := off / 512; s < (off+int64(len(buf)))/512; s++ {
